@@ -165,6 +165,10 @@ func genRules(r *rand.Rand) []RuleJ {
 
 // genHistory runs one random history on sys and appends its events to w.
 func genHistory(sys *Sys, r *rand.Rand, w *vh.NDJSONWriter, res *vh.Result, nev int, noFaults bool, via string, maxver *int, sample bool) int {
+	return genHistoryNames(sys, r, w, res, nev, noFaults, via, maxver, sample, namePool)
+}
+
+func genHistoryNames(sys *Sys, r *rand.Rand, w *vh.NDJSONWriter, res *vh.Result, nev int, noFaults bool, via string, maxver *int, sample bool, namePool []string) int {
 	d := sys.D
 	httpMode := sys.HTTP
 	total := 0
